@@ -269,7 +269,8 @@ func genEffects(repo string) (string, error) {
 			}
 		}
 		info := &types.Info{Types: map[ast.Expr]types.TypeAndValue{}, Uses: map[*ast.Ident]types.Object{}, Defs: map[*ast.Ident]types.Object{},
-			Selections: map[*ast.SelectorExpr]*types.Selection{}, Implicits: map[ast.Node]types.Object{}}
+			Selections: map[*ast.SelectorExpr]*types.Selection{}, Implicits: map[ast.Node]types.Object{},
+			Instances: map[*ast.Ident]types.Instance{}}
 		var terr error
 		conf := types.Config{Importer: effImporter{w, base}, Error: func(err error) {
 			if terr == nil {
@@ -1382,7 +1383,11 @@ func (w *effWorld) render() (string, error) {
 	var sb strings.Builder
 	sb.WriteString("/- GENERATED by /verif/extract (effects) from /repo/{utils,dom,diff,patch} — do not edit.\n")
 	sb.WriteString("   Roots: 3*slot+d — slot 0 = receiver, slot i = i-th parameter; d = 0 the object it refers to, 1 = the objects\n")
-	sb.WriteString("   that one holds references to, 2 = anything deeper; 1000+3*g+d the same for package variable g (`globalNames`). -/\n")
+	sb.WriteString("   that one holds references to, 2 = anything deeper; 1000+3*g+d the same for package variable g (`globalNames`;\n")
+	sb.WriteString("   global 0 = memory the analysis knows nothing about: what an unknown callee may write, what a literal captures).\n")
+	sb.WriteString("   `encl$N` is the N-th function literal of declaration `encl`, analysed as a function of its own (it is the\n")
+	sb.WriteString("   callee of dynamic calls the extractor resolved — `resolvedCalls`); `pkgVars`: package-level variables and\n")
+	sb.WriteString("   their syntactic writers. -/\n")
 	sb.WriteString("import YtkModel.EffectTypes\n\nnamespace Ytk.Generated\nopen Ytk.EffectT\n\n")
 	sb.WriteString("def globalNames : List String := [")
 	for i, g := range w.gnames {
